@@ -446,11 +446,17 @@ func (e *CheckingEnvironment) parseAndCheckProgramWithRecovery(
 
 	// If parsing or checking fails, attempt to recover
 
-	recoveredProgram, recoveredElaboration := e.recoverProgram(
+	recoveredProgram, recoveredElaboration, recoveryErr := e.recoverProgram(
 		code,
 		location,
 		checkedImports,
 	)
+
+	// If the program recovery handler itself failed, report its error,
+	// instead of silently dropping it
+	if recoveryErr != nil {
+		return program, elaboration, recoveryErr
+	}
 
 	// If recovery failed, return the original error
 	if recoveredProgram == nil || recoveredElaboration == nil {
@@ -465,6 +471,8 @@ func (e *CheckingEnvironment) parseAndCheckProgramWithRecovery(
 
 // recoverProgram parses and checks the given program with the old parser,
 // and recovers the elaboration from the old program.
+// If the recovery is not possible, no program and no elaboration are returned.
+// If the program recovery handler of the embedder fails, its error is returned.
 func (e *CheckingEnvironment) recoverProgram(
 	oldCode []byte,
 	location common.Location,
@@ -472,6 +480,7 @@ func (e *CheckingEnvironment) recoverProgram(
 ) (
 	program *ast.Program,
 	elaboration *sema.Elaboration,
+	recoveryErr error,
 ) {
 	// Parse
 
@@ -486,7 +495,7 @@ func (e *CheckingEnvironment) recoverProgram(
 		},
 	)
 	if err != nil {
-		return nil, nil
+		return nil, nil, nil
 	}
 
 	// Recover elaboration from the old program
@@ -495,25 +504,30 @@ func (e *CheckingEnvironment) recoverProgram(
 	errors.WrapPanic(func() {
 		newCode, err = e.runtimeInterface.RecoverProgram(program, location)
 	})
-	if err != nil || newCode == nil {
-		return nil, nil
+	if err != nil {
+		// The program recovery handler failed.
+		// This is not a failed recovery attempt, but a failure of the embedder.
+		return nil, nil, err
+	}
+	if newCode == nil {
+		return nil, nil, nil
 	}
 
 	// Parse and check the recovered program
 
 	program, err = parser.ParseProgram(e.memoryGauge, newCode, parser.Config{})
 	if err != nil {
-		return nil, nil
+		return nil, nil, nil
 	}
 
 	elaboration, err = e.check(location, program, checkedImports)
 	if err != nil || elaboration == nil {
-		return nil, nil
+		return nil, nil, nil
 	}
 
 	e.codesAndPrograms.setCode(location, newCode)
 
-	return program, elaboration
+	return program, elaboration, nil
 }
 
 func (e *CheckingEnvironment) temporarilyRecordCode(location common.AddressLocation, code []byte) {
